@@ -168,7 +168,11 @@ def handleObs (st : St) (toks : List String) (out : IO.FS.Stream) : IO St := do
         let mut st := st
         let mut h := h
         -- Layer I model
-        let (m', mres) := h.model.step op
+        -- `jump k`: the snapshot with every stamp moved up by `k` is loaded (`Book.reloadShift`)
+        let jumpK : Option Nat := if opLine.startsWith "jump_" then (opLine.drop 5).toNat? else none
+        let (m', mres) := match jumpK with
+          | some k => ((if h.model.faulted then h.model else h.model.reloadShift k), Res.unit)
+          | none => h.model.step op
         let mo := m'.observe h.nLevels
         if !h.kDead then
           if res == .panic then
